@@ -675,6 +675,11 @@ func (fx *FnExec) applyContract(con *Contract, key string, recv *Val, args []Val
 			}
 			o := fx.oblige("callpre", lab, t, "before the call of "+displayKey(key)+": "+r.Text, pos)
 			o.Props = fx.con.Props
+			// `clauseprops <label-prefix> Cxx Cyy`: this clause belongs to those properties only
+			if cp := strings.Fields(fx.con.Flags["clauseprops"]); len(cp) > 1 && r.Label != "" && strings.HasPrefix(r.Label, cp[0]) {
+				o.Props = cp[1:]
+				o.OnlyProps = true
+			}
 		}
 		}
 	}
